@@ -421,6 +421,21 @@ def choose(state, avail, rng, pol):
             cand = [i for i in s.player_indices if s.hole_dealing_statuses[i]]
             i = rng.choice(cand)
             args = [rng.randint(1, len(s.hole_dealing_statuses[i])), i]
+    elif op == 'deal_board' and dm == 'unknownboard':
+        # anonymised / partly recorded boards: ??, unknown rank, unknown suit
+        toks = []
+        for _ in range(s.board_dealing_count):
+            k = rng.random()
+            if k < 0.35:
+                toks.append('??')
+            elif k < 0.55:
+                toks.append('?' + rng.choice('cdhs'))
+            elif k < 0.75:
+                toks.append(rng.choice(RANKS) + '?')
+            else:
+                cs = tuple(s.get_dealable_cards(1))
+                toks.append(repr(rng.choice(cs)) if cs else '??')
+        args = [''.join(toks)]
     elif op == 'deal_board':
         cnt = s.board_dealing_count
         if dm in ('explicit', 'fewranks') and rng.random() < 0.8:
